@@ -581,37 +581,62 @@ const ruleNAMEFIDText = "name fidelity: the file name a reader stores for a prot
 
 func ruleNAMEFID(w *World, r *Report, pkgs ...string) {
 	r.rule("NAMEFID", ruleNAMEFIDText)
-	type ent struct{ pkg, fn, decoder string }
-	table := []ent{
-		{"par2", "par2.readFileDescriptionPacket", "par2.decodeNullPaddedASCIIString"},
-		{"par1", "par1.readFileEntry", "par1.decodeUTF16LEString"},
+	if len(pkgs) == 0 {
+		pkgs = []string{"par1", "par2"}
+	}
+	decoders := map[string]bool{"par2.decodeNullPaddedASCIIString": true, "par1.decodeUTF16LEString": true}
+	// classify a value stored as (or checked as) a protected file's name
+	var classify func(v ssa.Value, depth int) (bool, string)
+	classify = func(v ssa.Value, depth int) (bool, string) {
+		v = stripConv(v)
+		switch x := v.(type) {
+		case *ssa.Call:
+			if decoders[staticCalleeShort(&x.Call)] {
+				return true, "the result of " + staticCalleeShort(&x.Call)
+			}
+			return false, "the result of " + calleeName(&x.Call)
+		case *ssa.Parameter:
+			return true, "parameter " + x.Name()
+		case *ssa.Phi:
+			if depth > 4 {
+				return false, "a deeply merged value"
+			}
+			for _, e := range x.Edges {
+				if ok, what := classify(e, depth+1); !ok {
+					return false, what
+				}
+			}
+			return true, "a merge of unaltered names"
+		case *ssa.BinOp:
+			return false, "the computed string " + x.String()
+		case *ssa.Slice:
+			return false, "a sub-string (" + x.String() + ")"
+		case *ssa.Const:
+			return true, "a constant"
+		}
+		p := resolvedPath(v)
+		if strings.HasSuffix(p.Path, ".filename") || strings.HasSuffix(p.Path, "relFilePaths[*]") {
+			return true, "a copy of " + p.String()
+		}
+		if al, ok := p.Root.(*ssa.Alloc); ok {
+			// a local variable: every value stored into it
+			for _, ref := range referrersOf(al) {
+				if st, ok := ref.(*ssa.Store); ok && st.Addr == ssa.Value(al) && depth < 4 {
+					if ok, what := classify(st.Val, depth+1); !ok {
+						return false, what
+					}
+				}
+			}
+			return true, "a local holding an unaltered name"
+		}
+		return false, v.String()
 	}
 	n := 0
-	for _, e := range table {
-		use := len(pkgs) == 0
-		for _, p := range pkgs {
-			if p == e.pkg {
-				use = true
-			}
+	for _, fn := range w.funcsInPkgs(pkgs...) {
+		if strings.Contains(shortName(fn), "Encoder)") {
+			continue // the writer derives names from the caller's paths (CREATE-PATHS, SANIT)
 		}
-		if !use {
-			continue
-		}
-		fn := w.Fn(e.fn)
-		if fn == nil {
-			r.unk("NAMEFID", e.fn, "", "function not found")
-			continue
-		}
-		isDecoded := func(v ssa.Value) (bool, string) {
-			c, ok := v.(*ssa.Call)
-			if ok && staticCalleeShort(&c.Call) == e.decoder {
-				return true, ""
-			}
-			if ok {
-				return false, "the result of " + calleeName(&c.Call)
-			}
-			return false, v.String()
-		}
+		k := 0
 		for _, b := range fn.Blocks {
 			for _, in := range b.Instrs {
 				switch x := in.(type) {
@@ -621,20 +646,22 @@ func ruleNAMEFID(w *World, r *Report, pkgs ...string) {
 						continue
 					}
 					n++
-					key := e.fn + ":stored-name"
-					if ok, what := isDecoded(x.Val); ok {
-						r.ok("NAMEFID", key, w.ipos(x), "the stored name is the direct result of "+e.decoder)
+					key := fmt.Sprintf("%s:stored-name#%d", shortName(fn), k)
+					k++
+					if ok, what := classify(x.Val, 0); ok {
+						r.ok("NAMEFID", key, w.ipos(x), "the stored name is "+what)
 					} else {
-						r.bad("NAMEFID", key, w.ipos(x), "the stored name is "+what+", not the decoded wire name: the name is altered between the packet and the path it is used for")
+						r.bad("NAMEFID", key, w.ipos(x), "the stored name is "+what+", not the decoded wire name: the name is altered between the packet and the path it is used for (after it was checked, or so that it no longer matches what the writer recorded)")
 					}
 				case *ssa.Call:
-					if staticCalleeShort(&x.Call) != e.pkg+".checkFilename" {
+					if !strings.HasSuffix(staticCalleeShort(&x.Call), ".checkFilename") || x.Parent().Name() == "checkFilename" {
 						continue
 					}
 					n++
-					key := e.fn + ":checked-name"
-					if ok, what := isDecoded(x.Call.Args[0]); ok {
-						r.ok("NAMEFID", key, w.ipos(x), "the checked name is the direct result of "+e.decoder)
+					key := fmt.Sprintf("%s:checked-name#%d", shortName(fn), k)
+					k++
+					if ok, what := classify(x.Call.Args[0], 0); ok {
+						r.ok("NAMEFID", key, w.ipos(x), "the checked name is "+what)
 					} else {
 						r.bad("NAMEFID", key, w.ipos(x), "the checked name is "+what+", not the decoded wire name")
 					}
@@ -642,7 +669,7 @@ func ruleNAMEFID(w *World, r *Report, pkgs ...string) {
 			}
 		}
 	}
-	r.floor("NAMEFID", "stored/checked names", n, 1)
+	r.floor("NAMEFID", "stored/checked names", n, 4)
 }
 
 // ---------------------------------------------------------------------------
@@ -1128,4 +1155,173 @@ func ruleINTONLY(w *World, r *Report) {
 		r.ok("INTONLY", "gf2+gf2p16:functions", "", fmt.Sprintf("%d functions use integer operations only", nFn))
 	}
 	r.floor("INTONLY", "functions of gf2 and gf2p16 examined", nFn, 20)
+}
+
+// ---------------------------------------------------------------------------
+// ANCHOR: names relative to the set's directory are joined to it before any I/O
+
+const ruleANCHORText = "no I/O on a bare set-relative name: in par1 and par2, the path operand of fileIO.ReadFile / WriteFile is never directly a name that is relative to the set's base directory (an element of relFilePaths, a filename field of an entry or packet, a result of filepath.Rel or filepath.Base); such a name reaches I/O only through filepath.Join with the base directory - otherwise the file that is read or written depends on the process's working directory"
+
+func ruleANCHOR(w *World, r *Report, side string, floor int) {
+	r.rule("ANCHOR", ruleANCHORText)
+	n := 0
+	for _, fn := range w.funcsInPkgs("par1", "par2") {
+		if side != "" && !strings.Contains(shortName(fn), side) {
+			continue
+		}
+		k := 0
+		for _, c := range callInstrs(fn) {
+			var m string
+			for _, cand := range []string{"ReadFile", "WriteFile"} {
+				if isInvokeOf(c.Common(), cand, "par1", "par2") {
+					m = cand
+				}
+			}
+			if m == "" {
+				continue
+			}
+			key := fmt.Sprintf("%s:%s#%d", shortName(fn), m, k)
+			k++
+			n++
+			arg := stripConv(c.Common().Args[0])
+			bad := ""
+			var relName func(v ssa.Value, depth int) string
+			relName = func(v ssa.Value, depth int) string {
+				v = stripConv(v)
+				switch x := v.(type) {
+				case *ssa.Call:
+					switch calleeName(&x.Call) {
+					case "path/filepath.Base", "path.Base":
+						return "the result of filepath.Base"
+					}
+					return ""
+				case *ssa.Extract:
+					if cl, ok := x.Tuple.(*ssa.Call); ok && calleeName(&cl.Call) == "path/filepath.Rel" && x.Index == 0 {
+						return "the result of filepath.Rel"
+					}
+					return ""
+				case *ssa.Phi:
+					if depth < 4 {
+						for _, e := range x.Edges {
+							if s := relName(e, depth+1); s != "" {
+								return s
+							}
+						}
+					}
+					return ""
+				case *ssa.BinOp, *ssa.Parameter, *ssa.Const:
+					return ""
+				}
+				p := resolvedPath(v)
+				if strings.HasSuffix(p.Path, "relFilePaths[*]") || strings.HasSuffix(p.Path, ".filename") {
+					return "the set-relative name " + p.String()
+				}
+				return ""
+			}
+			bad = relName(arg, 0)
+			if bad != "" {
+				r.bad("ANCHOR", key, w.ipos(c), fmt.Sprintf("%s is handed %s without joining it to the base directory: which file is accessed depends on the working directory", m, bad))
+			} else {
+				r.ok("ANCHOR", key, w.ipos(c), "path operand is not a bare set-relative name")
+			}
+		}
+	}
+	r.floor("ANCHOR", "fileIO read/write call sites", n, floor)
+}
+
+// ---------------------------------------------------------------------------
+// POSTWRITE: the decoder records a file as restored only after its write succeeded
+
+const rulePOSTWRITEText = "state follows the write: in the Repair methods of the par1 and par2 decoders, a store into the decoder's own state (an element or field reached from the receiver) inside the loop that writes the repaired files is dominated by the err==nil edge of that loop's WriteFile - a file whose write failed is not recorded as usable, so counts taken afterwards and a second Repair on the same decoder still see it as damaged"
+
+func rulePOSTWRITE(w *World, r *Report) {
+	r.rule("POSTWRITE", rulePOSTWRITEText)
+	nLoops, nStores := 0, 0
+	for _, name := range []string{"(*par1.Decoder).Repair", "(*par2.Decoder).Repair"} {
+		fn := w.Fn(name)
+		if fn == nil {
+			r.unk("POSTWRITE", name, "", "function not found")
+			continue
+		}
+		recv := fn.Params[0]
+		loops := naturalLoops(fn)
+		for _, c := range callInstrs(fn) {
+			if !isInvokeOf(c.Common(), "WriteFile", "par1", "par2") {
+				continue
+			}
+			l := innermostLoop(loops, c.Block())
+			if l == nil {
+				continue
+			}
+			nLoops++
+			// success edge of this write
+			var okFrom *ssa.BasicBlock
+			okIdx := -1
+			errv := c.Value()
+			for b := range l.body {
+				iff, ok := b.Instrs[len(b.Instrs)-1].(*ssa.If)
+				if !ok {
+					continue
+				}
+				for _, cm := range factCmps(Fact{iff.Cond, true, iff}) {
+					if cm.X == ssa.Value(errv) && isNilConst(cm.Y) {
+						if cm.Op == token.NEQ {
+							okFrom, okIdx = b, 1
+						} else if cm.Op == token.EQL {
+							okFrom, okIdx = b, 0
+						}
+					}
+				}
+			}
+			if okFrom == nil {
+				r.unk("POSTWRITE", name+":write", w.ipos(c), "the err==nil edge of WriteFile was not found")
+				continue
+			}
+			var blocks []*ssa.BasicBlock
+			for b := range l.body {
+				blocks = append(blocks, b)
+			}
+			sort.Slice(blocks, func(i, j int) bool { return blocks[i].Index < blocks[j].Index })
+			k := 0
+			for _, b := range blocks {
+				for _, in := range b.Instrs {
+					st, ok := in.(*ssa.Store)
+					if !ok {
+						continue
+					}
+					p := resolvedAddrPath(st.Addr)
+					if p.Root != ssa.Value(recv) || p.Path == "" {
+						continue
+					}
+					nStores++
+					key := fmt.Sprintf("%s:store(%s)#%d", name, p.Path, k)
+					k++
+					if edgeDominates(okFrom, okIdx, b) {
+						r.ok("POSTWRITE", key, w.ipos(st), "decoder state is updated only after WriteFile returned nil")
+					} else {
+						r.bad("POSTWRITE", key, w.ipos(st), fmt.Sprintf("the decoder's %s is updated inside the write loop on a path where the write has not succeeded (yet): after a failed write the file still counts as restored", p.Path))
+					}
+				}
+			}
+		}
+	}
+	r.floor("POSTWRITE", "write loops in Repair", nLoops, 2)
+	r.floor("POSTWRITE", "decoder-state stores in write loops", nStores, 1)
+}
+
+func resolvedAddrPath(addr ssa.Value) accessPath {
+	p := addrPath(addr)
+	if _, local := p.Root.(*ssa.Alloc); local {
+		return p // a store into a local variable, wherever its value came from
+	}
+	for i := 0; i < 6; i++ {
+		rt := matrixRoot(p.Root)
+		if rt == p.Root {
+			break
+		}
+		q := valuePath(rt)
+		q.Path += p.Path
+		p = q
+	}
+	return p
 }
